@@ -224,7 +224,7 @@ def gen_trace(seed, world, tier, mode=None, chunk=None):
 
 def gen_jobs(base_seed, tier, budget=None):
     worlds = WORLDS_QUICK if tier == "quick" else WORLDS_THOROUGH
-    n_runs = budget or (480 if tier == "quick" else 12000)
+    n_runs = budget or (800 if tier == "quick" else 12000)
     n_sweeps = 6 if tier == "quick" else 60
     jobs = []
     for i in range(n_sweeps):   # the long jobs first, so that they overlap with the rest
